@@ -207,6 +207,14 @@ func runDecCase(k DecCase) (verdict string) {
 		if HooksBuilt && IsNegZero(back) != k.A.NegZero {
 			return fmt.Sprintf("ParseDecimal(%q) negative-zero flag %v", s, IsNegZero(back))
 		}
+		if mp := ionx.DecOf(ion.MustParseDecimal(s)); !mp.Equal(k.A) {
+			return fmt.Sprintf("MustParseDecimal(%q) = %v", s, mp)
+		}
+		if k.A.Exp == 0 && k.A.Coef.IsInt64() && !k.A.NegZero {
+			if di := ionx.DecOf(ion.NewDecimalInt(k.A.Coef.Int64())); !di.Equal(k.A) {
+				return fmt.Sprintf("NewDecimalInt(%v) = %v", k.A.Coef, di)
+			}
+		}
 	case "Parse":
 		// k.Note holds a literal produced by the reference printer denoting k.A
 		back, err := ion.ParseDecimal(k.Note)
